@@ -20,6 +20,7 @@ FUNCTIONS = [
 HARNESSES = {}
 for v in ['integer', 'smallint', 'bigint', 'unsigned', 'float', 'real', 'double', 'numeric']:
     HARNESSES['i_norm_' + v] = dict(fn='normalize_for_comparison', clause='order_preserving[%s]' % v)
+HARNESSES['i_norm_bigint_strict_on_full_domain'] = dict(fn='normalize_for_comparison', clause='strict_on_full_domain[bigint]', known='KF-C02-f64-index-keys')
 HARNESSES['i_norm_non_numeric_unchanged'] = dict(fn='normalize_for_comparison', clause='identity_on_non_numeric')
 HARNESSES['i_succ_try_increment_double_is_exact_successor'] = dict(fn='try_increment_sqlvalue', clause='exact_successor[double]')
 HARNESSES['i_succ_smart_increment_double_is_exact_successor'] = dict(fn='smart_increment_value', clause='exact_successor[double]')
